@@ -14,7 +14,9 @@ P4 == [p0 |-> <<"p1", "p2">>, p1 |-> <<"p3", "p4">>, p2 |-> << >>, p3 |-> << >>,
 P5 == [p0 |-> <<"p1">>, p1 |-> <<"p2", "p3">>, p2 |-> << >>, p3 |-> << >>]
 P6 == [p0 |-> <<"p1", "p2">>, p1 |-> << >>, p2 |-> <<"p3">>, p3 |-> << >>]
 MCPlansSolo == {P1, P2, P3, P4, P5, P6}
-MCPlansFan == {P2, P4}
+MCPlansFanAll == {P2, P4}
+MCPlansFanQuick == {P2}
+CONSTANT MCPlansFan
 Ops == {"none", "ok", "err", "panic", "ign"}
 OpsFan == {"ok", "err", "panic"}
 
